@@ -20,7 +20,7 @@ pub fn spec() -> Spec {
         id: "C20",
         rule: "planar triangulated disks: jittered grids with random diagonals, triangle strips, fans with and without a centre vertex (convex and star-shaped outlines), L- and U-shaped grid regions; 1..5000 faces; \
                vertex labels permuted, face order shuffled, index triples rotated, optionally all faces reversed; random scale 1e-2..1e2 (one case in four 1e-7..1e5) and 3-D pose. Curved disks (height fields, spherical caps) for the invariance clauses. \
-               Non-disks: closed box / sphere / torus, annulus, two separate disks, non-manifold fin, punctured torus, disk plus a closed component, two disks pinched at a vertex. \
+               Non-disks: closed box / sphere / torus, annulus, two separate disks, non-manifold fin, punctured torus, Moebius band, disk plus a closed component, two disks pinched at a vertex; one planar disk in ten also carries vertices that no face uses. \
                UV maps built from the flattening, queried with random (face, barycentric) surface points on and off the surface. Non-trivial = at least 4 faces; distinct = hash of face count, first vertex bits, pose bits.",
         assumptions: &[
             "edge-length tolerance (2e-6 + 2e-7 x D^2) x max(edge, mean edge), D = diameter of the vertex graph in edges: the code adds 1e-8 to the Laplacian diagonal, which perturbs the layout by up to 4e-8 x D^2 (measured on every family; 0.4% on an 800-face strip)",
@@ -378,10 +378,26 @@ fn run_planar(c: &mut Ctx) {
             t.swap(1, 2);
         }
     }
-    let d = posed(c, &d);
+    let mut d = posed(c, &d);
+    // one mesh in ten also carries vertices that no face uses (a patch cut from a larger mesh)
+    let unused = if c.rng.chance(0.1) { c.rng.int(1, 3) } else { 0 };
+    for _ in 0..unused {
+        let p = d.v[c.rng.int(0, d.v.len() - 1)] + gen::unit3(&mut c.rng) * c.rng.range(0.1, 2.0);
+        let at = c.rng.int(0, d.v.len());
+        // insert at a random label and shift the face indices accordingly
+        d.v.insert(at, p);
+        for t in &mut d.f {
+            for k in 0..3 {
+                if t[k] as usize >= at {
+                    t[k] += 1;
+                }
+            }
+        }
+    }
+    let d = d;
     let nf = d.f.len();
     let class = class_of(nf);
-    c.family(&format!("planar/{}{}/{class}", d.name, if reversed { "/reversed" } else { "" }));
+    c.family(&format!("planar/{}{}{}/{class}", d.name, if reversed { "/reversed" } else { "" }, if unused > 0 { "/unused-vertices" } else { "" }));
     c.set_case(json!({"vertices": gen::j3(&d.v), "faces": gen::jfaces(&d.f)}));
     let api = "boundary_first_flatten";
     let r = flatten(&d);
@@ -437,8 +453,15 @@ fn run_planar(c: &mut Ctx) {
     // the shape up to a rigid motion: distances between random vertex pairs
     let ext = extent2(&uv).max(mean);
     let mut worst_p = 0.0f64;
-    for _ in 0..200.min(d.v.len() * d.v.len()) {
-        let (a, b) = (c.rng.int(0, d.v.len() - 1), c.rng.int(0, d.v.len() - 1));
+    // (between vertices that a face uses: the position given to an unused vertex means nothing)
+    let used: Vec<usize> = {
+        let mut u: Vec<usize> = d.f.iter().flatten().map(|i| *i as usize).collect();
+        u.sort();
+        u.dedup();
+        u
+    };
+    for _ in 0..200.min(used.len() * used.len()) {
+        let (a, b) = (*c.rng.pick(&used), *c.rng.pick(&used));
         let e = ((d.v[a] - d.v[b]).norm() - (uv[a] - uv[b]).norm()).abs() / (rel * ext);
         worst_p = worst_p.max(e);
     }
@@ -528,7 +551,7 @@ fn raw_to_disk(m: &RawMesh) -> Disk {
 }
 
 fn run_rejection(c: &mut Ctx) {
-    let kind = c.rng.int(0, 8);
+    let kind = c.rng.int(0, 9);
     let (class, d): (&'static str, Disk) = match kind {
         0 => {
             let m = match c.rng.int(0, 2) {
@@ -609,6 +632,32 @@ fn run_rejection(c: &mut Ctx) {
             let map = |i: u32| if i == 0 { 0 } else { i - 1 + off };
             f.extend(b.f.iter().map(|t| [map(t[0]), map(t[1]), map(t[2])]));
             ("non-manifold/pinched-at-a-vertex", Disk { name: "bowtie", v, f })
+        }
+        8 => {
+            // Moebius band: one boundary loop, manifold edges, Euler characteristic 0; sometimes with
+            // spare vertices that no face uses
+            let n = c.rng.int(5, 24);
+            let mut v = Vec::new();
+            for k in 0..n {
+                let a = TAU * k as f64 / n as f64;
+                let half = 0.5 * a;
+                for w in [-0.3, 0.3] {
+                    let r = 1.0 + w * half.cos();
+                    v.push(Point3::new(r * a.cos(), r * a.sin(), w * half.sin()));
+                }
+            }
+            let mut f = Vec::new();
+            for k in 0..n {
+                let (a0, a1) = ((2 * k) as u32, (2 * k + 1) as u32);
+                // the strip closes with a half twist: the last pair connects to the first swapped
+                let (b0, b1) = if k + 1 < n { ((2 * k + 2) as u32, (2 * k + 3) as u32) } else { (1, 0) };
+                f.push([a0, b0, b1]);
+                f.push([a0, b1, a1]);
+            }
+            for _ in 0..c.rng.int(0, 2) {
+                v.push(Point3::new(c.rng.range(-2.0, 2.0), c.rng.range(-2.0, 2.0), c.rng.range(-2.0, 2.0)));
+            }
+            ("single-boundary-but-not-a-disk/moebius-band", Disk { name: "moebius", v, f })
         }
         _ => {
             // disk with two holes
@@ -744,6 +793,31 @@ fn run_uv(c: &mut Ctx) {
                 }
             } else {
                 c.skip("Mesh::uv_with_tol :: UV of a point off the surface is that of its foot");
+            }
+        }
+        // ---- the motion passed as an argument: uv_with_tol(T^-1 p', .., Some(T)) is uv_with_tol(p', .., None)
+        if inside {
+            let h = c.rng.sign() * c.rng.log_range(1e-4, 1e-2) * ext;
+            let lifted = p + n * h;
+            let (dmin, _) = crate::oracle::brute_mesh(&d.v, &d.f, &lifted);
+            if (dmin - h.abs()).abs() <= 1e-9 * ext {
+                let tm = gen::iso3(&mut c.rng, 2.0 * ext);
+                let arg = tm.inverse() * lifted;
+                let r = guard(|| (mesh.uv_with_tol(&arg, ext, 0.3, Some(&tm)), mesh.uv_with_tol(&lifted, ext, 0.3, None)));
+                c.evals(2);
+                match r {
+                    Ok((Some((u1, d1)), Some((u2, d2)))) => {
+                        let slack = 1e3 * f64::EPSILON * (off + tm.translation.vector.norm());
+                        c.close("Mesh::uv_with_tol", "the motion passed as an argument equals moving the point first (UV)", class, (u1 - u2).norm(), 0.0, tol2 + slack * ext_uv / ext);
+                        c.close("Mesh::uv_with_tol", "the motion passed as an argument equals moving the point first (depth)", class, d1, d2, tol3 + slack);
+                    }
+                    Ok((a, b)) => {
+                        c.check("Mesh::uv_with_tol", "the motion passed as an argument equals moving the point first (UV)", class, a.is_none() && b.is_none(), || format!("with Some(T): {:?}; on the moved point: {:?}", a, b));
+                    }
+                    Err(pn) => {
+                        c.check("Mesh::uv_with_tol", "no-panic", class, false, || format!("{} {}", pn.sig(), pn.msg));
+                    }
+                }
             }
         }
         // ---- UV -> 3-D
